@@ -263,7 +263,7 @@ def to_raw_lemma(ctx, inst):
     return None
 
 
-def run(ctx):
+def _run(ctx):
     P = ctx.P
     r1 = ctx.inst("C16.R1", "key discipline: every PAIRS access is keyed by the registry key function applied to the (raw) asset pair, directly or via TMP_PAIR_INFO.pair_key", floor=7)
     r23 = ctx.inst("C16.R2R3", "registry key is symmetric (sorted by a total order) and injective (kind tags, length-prefixed identifiers)", floor=3)
@@ -564,3 +564,14 @@ def run(ctx):
 def proj_field(v, name):
     from ..mir import proj
     return proj(v, ("f", name))
+
+
+def run(ctx):
+    from .. import compose
+    from . import c17
+    _run(ctx)
+    r8 = ctx.inst("C16.R8", "allow-list enforcement: the factory's native-decimals query errs for an unregistered denom and answers exactly the stored value — creation only learns native decimals through it (C16.R5)", floor=1)
+    try:
+        c17.allow_list_reader_strict(ctx, r8)
+    except AnchorMissing as e:
+        r8.fail("C16.R8:anchor", "-", "-", "anchor-missing: %s" % e)
